@@ -1,6 +1,7 @@
 import AsynqModel.Sexp
 import AsynqModel.Drv.Futures
 import AsynqModel.Drv.Core
+import AsynqModel.Drv.Threads
 import AsynqModel.Drv.Asyncio
 import AsynqModel.Drv.Decorators
 import AsynqModel.Drv.Cache
@@ -17,6 +18,7 @@ def handleCase (mode : String) (id : Nat) (hdr body : List Sexp) : String :=
   match mode with
   | "futures" => Drv.Futures.handle id hdr body
   | "core" => Drv.Core.handle id hdr body
+  | "threads" => Drv.Threads.handle id hdr body
   | "asyncio" => Drv.Asyncio.handle id hdr body
   | "decorators" => Drv.Decorators.handle id hdr body
   | "cache" => Drv.Cache.handle id hdr body
